@@ -6,7 +6,13 @@ over the node's statement list (real `yield`, real try/except, real `raise`).  T
 twice through the public API only:
 
     root(arg)                               on the asynq scheduler
-    asyncio.run(main())  with  `await root.asyncio(arg)` inside main
+    asyncio.run(main())  with  `await root.asyncio(arg)` inside main, after which main keeps running:
+                         is_asyncio_mode(), then the case's "probes" - plain synchronous calls g(arg)
+
+Function identity: a call node may carry "fn": key.  All nodes with the same key are activations of ONE
+decorated function object (one @asynq() decorator, one cached converted coroutine function, one holder
+instance for methods); the function looks its statement list up by its argument, the way a recursive
+function branches on its argument.  Without "fn" a node has a function of its own.
 
 and everything observable is logged by the generated bodies themselves: body start (with
 is_asyncio_mode()), call completion (value / exception instance id), what each yield delivered,
@@ -93,7 +99,10 @@ class Prog:
     """All decorated callables of one case."""
 
     def __init__(self, root):
-        self.fns = {}       # id -> callable object supporting (), .asynq(), .asyncio()
+        self.fns = {}       # activation id -> callable object supporting (), .asynq(), .asyncio()
+        self.objs = {}      # function key -> the decorated object shared by all activations of that function
+        self.bodies = {}    # activation id -> statement list
+        self.delays = {}    # activation id -> suspensions of the native asyncio_fn
         self.declare_leaf(root)
 
     # ---- declaration: walk the AST once, create every function before anything runs
@@ -147,8 +156,14 @@ class Prog:
     def declare_fn(self, fn):
         prog = self
         nid = fn["id"]
-        body = fn["body"]
-        self.declare_stmts(body)
+        self.bodies[nid] = fn["body"]
+        self.delays[nid] = fn.get("delay", 0)
+        key = fn.get("fn", ("own", nid))
+        if key in self.objs:
+            # another activation of an already declared function
+            self.fns[nid] = self.objs[key]
+            self.declare_stmts(fn["body"])
+            return
 
         def finish(acc, ret):
             # ret: None when the body fell off its end (-> the accumulator), else (value,) of the return statement
@@ -159,7 +174,7 @@ class Prog:
                 LOG.append(["body", a[-1], flag()])
                 acc = []
                 try:
-                    ret = prog.run_plain(body, acc, a[-1])
+                    ret = prog.run_plain(prog.bodies[a[-1]], acc, a[-1])
                 except Exception as e:
                     LOG.append(["done", a[-1], {"Err": [exn_tree(e)]}])
                     raise
@@ -171,7 +186,7 @@ class Prog:
                 LOG.append(["body", a[-1], flag()])
                 acc = []
                 try:
-                    ret = yield from prog.run(body, acc, a[-1])
+                    ret = yield from prog.run(prog.bodies[a[-1]], acc, a[-1])
                 except Exception as e:
                     LOG.append(["done", a[-1], {"Err": [exn_tree(e)]}])
                     raise
@@ -181,16 +196,14 @@ class Prog:
 
         afn = None
         if fn["afn"] == "native":
-            delay = fn.get("delay", 0)
-
             async def afn(*a):
                 # the user's own coroutine function: same meaning as the body, written natively
                 LOG.append(["body", a[-1], flag()])
-                for _ in range(delay):
+                for _ in range(prog.delays[a[-1]]):
                     await asyncio.sleep(0)
                 acc = []
                 try:
-                    ret = prog.run_plain(body, acc, a[-1])
+                    ret = prog.run_plain(prog.bodies[a[-1]], acc, a[-1])
                 except Exception as e:
                     LOG.append(["done", a[-1], {"Err": [exn_tree(e)]}])
                     raise
@@ -211,9 +224,12 @@ class Prog:
         dec = asynq(**kw)(f)
         if fn["kind"] == "method":
             holder = type("Holder%d" % nid, (), {"m": dec})
-            self.fns[nid] = holder().m
+            obj = holder().m
         else:
-            self.fns[nid] = dec
+            obj = dec
+        self.objs[key] = obj
+        self.fns[nid] = obj
+        self.declare_stmts(fn["body"])
 
     # ---- building what a yield statement yields
     def mk_leaf(self, s):
@@ -246,9 +262,9 @@ class Prog:
                 try:
                     v = yield self.mk_struct(st["y"])
                 except Exception as e:
-                    LOG.append(["resume", me, st["site"], {"Err": [exn_tree(e)]}])
+                    LOG.append(["resume", me, st["site"], {"Err": [exn_tree(e)]}, flag()])
                     raise
-                LOG.append(["resume", me, st["site"], {"Ok": [treeval(v)]}])
+                LOG.append(["resume", me, st["site"], {"Ok": [treeval(v)]}, flag()])
                 acc.append(v)
             elif "try" in st:
                 try:
@@ -325,6 +341,9 @@ def run_case(c):
     node = root["t"] if "t" in root else root["px"]
     rid = node["id"]
     P = Prog(root)
+    probes = c.get("probes", [])
+    for pr in probes:
+        P.declare_leaf(pr)
     target = P.fns[rid]
 
     # --- asynq
@@ -352,6 +371,16 @@ def run_case(c):
             except Exception as e:
                 rec["out"] = {"Err": [exn_tree(e)]}
             rec["after"] = flag()
+            rec["aio_len"] = len(LOG)
+            # the caller keeps running: plain synchronous calls of @asynq() functions after the await
+            rec["probes"] = []
+            for pr in probes:
+                n0 = len(LOG)
+                try:
+                    o = {"Ok": [treeval(P.sync_call(pr))]}
+                except Exception as e:
+                    o = {"Err": [exn_tree(e)]}
+                rec["probes"].append({"out": o, "flag": flag(), "log": LOG[n0:]})
         finally:
             if mode is not None:
                 mode.__exit__(None, None, None)
@@ -360,14 +389,16 @@ def run_case(c):
     outer_before = flag()
     asyncio.run(main())
     outer_after = flag()
-    aio_log = list(LOG)
+    aio_log = list(LOG[:rec["aio_len"]])
     del LOG[:]
 
-    out = {"": [seq_out, events(seq_log), {"": [rec["out"], rec["after"], events(aio_log)]}]}
+    out = {"": [seq_out, events(seq_log), {"": [rec["out"], rec["after"], events(aio_log)]},
+                [{"": [pr["out"], pr["flag"], events(pr["log"])]} for pr in rec["probes"]]]}
     return {"out": out,
             "seq": {"out": seq_out, "log": seq_log, "flag_before": pre_seq, "flag_after": post_seq},
             "aio": {"out": rec["out"], "log": aio_log, "before": rec["before"], "after": rec["after"],
-                    "after_exit": rec["after_exit"], "outer_before": outer_before, "outer_after": outer_after}}
+                    "after_exit": rec["after_exit"], "outer_before": outer_before, "outer_after": outer_after,
+                    "probes": rec["probes"]}}
 
 
 if __name__ == "__main__":
